@@ -92,7 +92,7 @@ theorem resolved_sound (hist : List Delivery) (s : State) (now : Nat) (pkts : Li
   have hk := ok_iter hist s now pkts cmds h
   refine ⟨hk.1, ?_⟩
   intro ch r hm
-  obtain ⟨c, ty, inst, hc, rfl, hv⟩ := hk.2 ch r hm
+  obtain ⟨c, ty, inst, hc, rfl, hv⟩ := hk.2.1 ch r hm
   exact ⟨c, hc, resolveFromCache_sound c now ty inst hv⟩
 
 /-- the deliveries of a whole history of iterations `(now, packets, commands)` -/
